@@ -13,6 +13,7 @@ EXTENDS Integers, Sequences, FiniteSets
 Op(f, a, b) == CASE f = 0 -> IF a < b THEN a ELSE b      \* min
                  [] f = 1 -> a + b                        \* add
                  [] f = 2 -> IF a > b THEN a ELSE b       \* max
+                 [] f = 3 -> b                            \* set (at most one contribution per node and round)
 \* acc: function gid -> <<has contribution, folded contributions>>
 NoAcc(n) == [g \in 0..(n - 1) |-> <<FALSE, 0>>]
 Contribute(acc, f, g, c) == [acc EXCEPT ![g] = IF @[1] THEN <<TRUE, Op(f, @[2], c)>> ELSE <<TRUE, c>>]
